@@ -67,6 +67,24 @@ func checkReportVsData(tr *trace) []issue {
 			outBy[a.Id] = a
 		}
 		switch e.Name {
+		case "criteriaOmission":
+			// the criteria handed on are exactly the received ones minus the reported omitted ones
+			om, _ := reportedCriteriaChanges(e)
+			omitted := setOf(om)
+			handed := map[string]bool{}
+			for _, cr := range e.Out.Crit {
+				handed[cr.Id] = true
+				if omitted[cr.Id] {
+					add("report-vs-data", fmt.Sprintf("criterion '%s' is reported omitted but was handed on", cr.Id))
+					break
+				}
+			}
+			for _, cr := range e.In.Crit {
+				if !omitted[cr.Id] && !handed[cr.Id] {
+					add("report-vs-data", fmt.Sprintf("criterion '%s' was not handed on although it is not reported omitted", cr.Id))
+					break
+				}
+			}
 		case "fatigue":
 			for _, part := range []struct {
 				key string
